@@ -31,7 +31,11 @@ var zeroMethods = []zeroOp{
 	{name: "Count", want: "0", scalar: func(e *env, z fp.Iterator[int]) string { return sprint(z.Count()) }},
 	{name: "MakeString", want: "\"\"", scalar: func(e *env, z fp.Iterator[int]) string { return fmt.Sprintf("%q", z.MakeString(",")) }},
 	{name: "Find", want: "None", scalar: func(e *env, z fp.Iterator[int]) string { return sprint(z.Find(func(int) bool { return true })) }},
-	{name: "Foreach", want: "0 calls", scalar: func(e *env, z fp.Iterator[int]) string { n := 0; z.Foreach(called(&n)); return fmt.Sprintf("%d calls", n) }},
+	{name: "Foreach", want: "0 calls", scalar: func(e *env, z fp.Iterator[int]) string {
+		n := 0
+		z.Foreach(called(&n))
+		return fmt.Sprintf("%d calls", n)
+	}},
 	{name: "Exists", want: "false", scalar: func(e *env, z fp.Iterator[int]) string { return sprint(z.Exists(func(int) bool { return true })) }},
 	{name: "ForAll", want: "true", scalar: func(e *env, z fp.Iterator[int]) string { return sprint(z.ForAll(func(int) bool { return false })) }},
 	{name: "IsEmpty", want: "true", scalar: func(e *env, z fp.Iterator[int]) string { return sprint(z.IsEmpty()) }},
@@ -58,7 +62,9 @@ var zeroMethods = []zeroOp{
 	{name: "Concat(zero,[1 2])", wantSeq: []int{1, 2}, iter: func(e *env, z fp.Iterator[int]) fp.Iterator[int] { return z.Concat(newSrc(e, []int{1, 2}).iter()) }},
 	{name: "Concat([1 2],zero)", wantSeq: []int{1, 2}, iter: func(e *env, z fp.Iterator[int]) fp.Iterator[int] { return newSrc(e, []int{1, 2}).iter().Concat(z) }},
 	{name: "Concat(zero,zero)", wantSeq: []int{}, iter: func(e *env, z fp.Iterator[int]) fp.Iterator[int] { return z.Concat(z) }},
-	{name: "Concat(zero,zero).Concat([3])", wantSeq: []int{3}, iter: func(e *env, z fp.Iterator[int]) fp.Iterator[int] { return z.Concat(z).Concat(newSrc(e, []int{3}).iter()) }},
+	{name: "Concat(zero,zero).Concat([3])", wantSeq: []int{3}, iter: func(e *env, z fp.Iterator[int]) fp.Iterator[int] {
+		return z.Concat(z).Concat(newSrc(e, []int{3}).iter())
+	}},
 	{name: "self", wantSeq: []int{}, iter: func(e *env, z fp.Iterator[int]) fp.Iterator[int] { return z }},
 }
 
@@ -66,10 +72,20 @@ var zeroMethods = []zeroOp{
 var zeroArgs = []zeroOp{
 	{name: "iterator.ToSeq", want: "[]", scalar: func(e *env, z fp.Iterator[int]) string { return sprint([]int(iterator.ToSeq(z))) }},
 	{name: "seq.Collect", want: "[]", scalar: func(e *env, z fp.Iterator[int]) string { return sprint([]int(seq.Collect(z))) }},
-	{name: "iterator.Fold", want: "7", scalar: func(e *env, z fp.Iterator[int]) string { return sprint(iterator.Fold(z, 7, func(a, v int) int { return a + v })) }},
-	{name: "iterator.ToList", want: "true []", scalar: func(e *env, z fp.Iterator[int]) string { l := iterator.ToList(z); return fmt.Sprint(l.IsEmpty(), l.ToSeq()) }},
-	{name: "list.Collect", want: "true []", scalar: func(e *env, z fp.Iterator[int]) string { l := list.Collect(z); return fmt.Sprint(l.IsEmpty(), l.ToSeq()) }},
-	{name: "iterator.Map", wantSeq: []int{}, iter: func(e *env, z fp.Iterator[int]) fp.Iterator[int] { return iterator.Map(z, func(v int) int { return v }) }},
+	{name: "iterator.Fold", want: "7", scalar: func(e *env, z fp.Iterator[int]) string {
+		return sprint(iterator.Fold(z, 7, func(a, v int) int { return a + v }))
+	}},
+	{name: "iterator.ToList", want: "true []", scalar: func(e *env, z fp.Iterator[int]) string {
+		l := iterator.ToList(z)
+		return fmt.Sprint(l.IsEmpty(), l.ToSeq())
+	}},
+	{name: "list.Collect", want: "true []", scalar: func(e *env, z fp.Iterator[int]) string {
+		l := list.Collect(z)
+		return fmt.Sprint(l.IsEmpty(), l.ToSeq())
+	}},
+	{name: "iterator.Map", wantSeq: []int{}, iter: func(e *env, z fp.Iterator[int]) fp.Iterator[int] {
+		return iterator.Map(z, func(v int) int { return v })
+	}},
 	{name: "iterator.FlatMap", wantSeq: []int{}, iter: func(e *env, z fp.Iterator[int]) fp.Iterator[int] {
 		return iterator.FlatMap(z, func(v int) fp.Iterator[int] { return iterator.Of(v) })
 	}},
